@@ -43,7 +43,7 @@ Proof. intros c h p H. unfold terr_b. rewrite H. reflexivity. Qed.
 Lemma folder_files_in_folders : forall c h out w, In w (folder_files c h out) -> in_folders c h w = true.
 Proof.
   intros c h out w H. unfold folder_files in H.
-  destruct H as [<-|[<-|[<-|H]]]; [apply cert_in_folders|apply load_in_folders|apply tick_in_folders|].
+  destruct H as [<-|[<-|[<-|[<-|H]]]]; [apply cert_in_folders|apply cert_tmp_in_folders|apply load_in_folders|apply tick_in_folders|].
   destruct out as [| | |o]; try contradiction. apply in_map_iff in H as ([p s] & <- & Hin).
   apply out_files_in in Hin as [Hin _]. exact Hin.
 Qed.
@@ -93,9 +93,9 @@ Proof.
 Qed.
 
 (* ------------------------------------------------------------------ #static *)
-Lemma del_list_fixed_flag : forall c h F s, In (F, s) (del_list fixed c h) -> s = true.
+Lemma del_list_fixed_flag : forall v c h F s, sound v -> In (F, s) (del_list v c h) -> s = true.
 Proof.
-  intros c h F s H. unfold del_list in H. simpl in H. apply in_app_or in H as [H|H].
+  intros v c h F s (_ & Hm & Hl) H. unfold del_list in H. rewrite Hl, Hm in H. apply in_app_or in H as [H|H].
   - apply in_map_iff in H as (o & Heq & _). inversion Heq. reflexivity.
   - destruct H as [H|[H|[]]]; inversion H; reflexivity.
 Qed.
@@ -110,31 +110,32 @@ Qed.
 Lemma folder_files_written : forall c h o w, In w (folder_files c h (Success o)) -> In w (written_paths c h o).
 Proof.
   intros c h o w H. unfold folder_files in H. unfold written_paths.
-  destruct H as [<-|[<-|[<-|H]]].
+  destruct H as [<-|[<-|[<-|[<-|H]]]].
   - simpl. auto.
-  - right. apply in_or_app. right. simpl. auto.
-  - right. apply in_or_app. right. simpl. auto.
-  - right. apply in_or_app. right. simpl. right. right. apply in_or_app. auto.
+  - simpl. auto.
+  - right. right. apply in_or_app. right. simpl. auto.
+  - right. right. apply in_or_app. right. simpl. auto.
+  - right. right. apply in_or_app. right. simpl. right. right. apply in_or_app. auto.
 Qed.
 
-Lemma shape_static : forall c h o x,
-  static_safe c h o = true -> shape_ok fixed c h (Success o) x -> excepted h (op_path x) = false.
+Lemma shape_static : forall v c h o x,
+  sound v -> static_safe c h o = true -> shape_ok v c h (Success o) x -> excepted h (op_path x) = false.
 Proof.
-  intros c h o x Hs [(F & s & HF & Hp & _ & Hx)|[(w & Hw & Hp & Hne & Hk)|[H|[H Hk]]]].
-  - apply del_list_fixed_flag in HF. destruct (h_statics h) eqn:E.
+  intros v c h o x Hv Hs [(F & s & HF & Hp & _ & Hx)|[(w & Hw & Hp & Hne & Hk)|[H|[H Hk]]]].
+  - apply del_list_fixed_flag in HF; auto. destruct (h_statics h) eqn:E.
     + apply excepted_nil. exact E.
     + apply Hx; auto. discriminate.
   - apply folder_files_written in Hw. pose proof (static_safe_written _ _ _ _ Hs Hw) as Hw'.
     destruct (excepted h (op_path x)) eqn:E; auto. rewrite (excepted_mono h _ _ Hp E) in Hw'. discriminate.
-  - eapply static_safe_written; eauto. unfold written_paths. right. apply in_or_app. auto.
-  - rewrite H. eapply static_safe_written; eauto. unfold written_paths. right. apply in_or_app. right.
+  - eapply static_safe_written; eauto. unfold written_paths. right. right. apply in_or_app. auto.
+  - rewrite H. eapply static_safe_written; eauto. unfold written_paths. right. right. apply in_or_app. right.
     simpl. right. right. apply in_or_app. right. simpl. auto.
 Qed.
 
-Lemma plan_fixed_nonsuccess : forall c h out fault t,
-  (forall o, out <> Success o) -> plan fixed c h out fault t = [].
+Lemma plan_fixed_nonsuccess : forall v c h out fault t,
+  v_cert_early v = false -> (forall o, out <> Success o) -> plan v c h out fault t = [].
 Proof.
-  intros c h out fault t Hn. unfold plan, run. destruct out as [| | |o]; simpl; auto.
+  intros v c h out fault t Hv Hn. unfold plan, run. rewrite Hv. destruct out as [| | |o]; simpl; auto.
   - destruct (is_dir t (ns_dir c)); [destruct (is_file t (cert_path c))|]; reflexivity.
   - destruct (is_dir t (ns_dir c)); [destruct (is_file t (cert_path c))|]; reflexivity.
   - exfalso. eapply Hn; eauto.
@@ -143,15 +144,17 @@ Qed.
 (* C10: folders registered with #static stay byte-identical — at every crash point too.
    [static_safe]: the declared statics do not contain a path the build itself writes (jmc.txt, the tag files,
    an emitted function/JSON file, pack.mcmeta, a #copy destination); otherwise the user asked for both. *)
-Theorem statics_untouched : forall c h out fault t ops t' p,
+Theorem statics_untouched : forall v c h out fault t ops t' p,
+  sound v ->
   (forall o, out = Success o -> static_safe c h o = true) ->
-  crash_trace (plan fixed c h out fault t) ops -> exec ops t = Some t' ->
+  crash_trace (plan v c h out fault t) ops -> exec ops t = Some t' ->
   excepted h p = true -> node_at t' p = node_at t p.
 Proof.
-  intros c h out fault t ops t' p Hs Hc He Hx. eapply exec_frame; eauto.
+  intros v c h out fault t ops t' p Hv Hs Hc He Hx. eapply exec_frame; eauto.
   intros x Hxin Hp. destruct (crash_trace_in _ _ _ Hc Hxin) as (y & Hy & Hpy & _).
-  destruct out as [| | |o]; try (rewrite plan_fixed_nonsuccess in Hy; [contradiction|intros; discriminate]).
-  apply run_shape in Hy. apply (shape_static c h o) in Hy; auto. rewrite Hpy, Hp, Hx in Hy. discriminate.
+  destruct out as [| | |o];
+    try (rewrite plan_fixed_nonsuccess in Hy; [contradiction|apply Hv|intros; discriminate]).
+  apply run_shape in Hy. apply (shape_static v c h o) in Hy; auto. rewrite Hpy, Hp, Hx in Hy. discriminate.
 Qed.
 
 (* ------------------------------------------------------------------ refusal, failed compiles *)
@@ -166,9 +169,58 @@ Qed.
 
 (* repaired behaviour: a compile that ends in a compilation error (header / lexer+parser / DataPack.build) performs
    no mutation at all *)
-Theorem failed_compile_noop : forall c h out fault t,
-  (forall o, out <> Success o) -> plan fixed c h out fault t = [] /\ exec (plan fixed c h out fault t) t = Some t.
+Theorem failed_compile_noop : forall v c h out fault t,
+  v_cert_early v = false ->
+  (forall o, out <> Success o) -> plan v c h out fault t = [] /\ exec (plan v c h out fault t) t = Some t.
 Proof. intros. rewrite plan_fixed_nonsuccess; auto. Qed.
+
+(* [v_tags_early]: the write phase is handed the parsed tag values and cannot fail any more ... *)
+Lemma write_phase_given_done : forall v c h o lv tv cur, snd (write_phase v c h o (Some (lv, tv)) cur) = RDone.
+Proof. intros. unfold write_phase. reflexivity. Qed.
+
+Lemma build_with_given_result : forall v c h o lv tv isd fault cur,
+  snd (build_with v c h o (Some (lv, tv)) isd fault cur) = ROsErr \/
+  snd (build_with v c h o (Some (lv, tv)) isd fault cur) = RDone.
+Proof.
+  intros. unfold build_with.
+  set (dops := if isd then del_phase h cur (del_list v c h) else []).
+  destruct (match fault with Some P => cut P dops | None => (dops, false) end) as [pre hit].
+  destruct hit; [left; reflexivity|]. right.
+  pose proof (write_phase_given_done v c h o lv tv (run_ops dops cur)) as Hw.
+  destruct (write_phase v c h o (Some (lv, tv)) (run_ops dops cur)) as [w r]. exact Hw.
+Qed.
+
+(* the results of a compile that failed: every error except the deletion failure (ROsErr), which by nature comes
+   after some files are gone *)
+Definition failed (r : result) : bool :=
+  match r with RHeaderErr | RRefused | RLexErr | RBuildErr | RTagErr => true | ROsErr | RDone => false end.
+
+(* ... so a build that reports an unparsable function-tag file has not performed any mutation *)
+Lemma build_failed_nil : forall v c h o isd fault cur,
+  v_tags_early v = true -> failed (snd (build v c h o isd fault cur)) = true -> fst (build v c h o isd fault cur) = [].
+Proof.
+  intros v c h o isd fault cur Hv H. unfold build in *. rewrite Hv in *.
+  destruct (early_tag c h isd cur (load_path c)) as [lv|]; [destruct (early_tag c h isd cur (tick_path c)) as [tv|]|];
+    try reflexivity.
+  destruct (build_with_given_result v c h o lv tv isd fault cur) as [E|E]; rewrite E in H; discriminate.
+Qed.
+
+(* C10, last sentence, for the variants that read the function tags first: header error, refusal, lexer/parser error,
+   DataPack.build error AND the JMCBuildError for an unparsable / "values"-less function-tag file all leave the
+   tree exactly as it was. *)
+Theorem failed_build_noop : forall v c h out fault t,
+  v_cert_early v = false -> v_tags_early v = true ->
+  failed (snd (run v c h out fault t)) = true ->
+  plan v c h out fault t = [] /\ exec (plan v c h out fault t) t = Some t.
+Proof.
+  intros v c h out fault t Hc Ht Hf.
+  assert (E : plan v c h out fault t = []); [|rewrite E; auto].
+  destruct out as [| | |o]; try (apply plan_fixed_nonsuccess; [exact Hc|intros; discriminate]).
+  unfold plan, run in *. rewrite Hc in *. destruct (is_dir t (ns_dir c)).
+  - destruct (is_file t (cert_path c)); [|reflexivity]. apply build_failed_nil; auto.
+  - cbn [run_ops app] in *. pose proof (build_failed_nil v c h o false fault t Ht) as Hn.
+    destruct (build v c h o false fault t) as [ops r]. cbn [fst snd] in *. auto.
+Qed.
 
 (* pinned behaviour: true only when the namespace folder already exists *)
 Theorem failed_compile_noop_pinned_partial : forall c h out fault t,
@@ -209,12 +261,13 @@ Proof.
   vm_compute. repeat split.
 Qed.
 
-(* both variants: an unparsable function-tag file stops the build (JMCBuildError) after jmc.txt was written *)
+(* [pinned] and [fixed] (tags read after make_cert / #copy): an unparsable function-tag file stops the build
+   (JMCBuildError) after jmc.txt was written *)
 Definition w_tree_badtag : fs :=
   TDir [(".", TDir [("data", TDir [("minecraft", TDir [("tags", TDir [("function",
           TDir [("load.json", TFile (Raw "{""values"": ["))])])])])])].
 
-Theorem tag_error_noop_refuted :
+Theorem tag_error_noop_refuted_fixed :
   exists c h o t t', run fixed c h (Success o) None t = (plan fixed c h (Success o) None t, RTagErr) /\
     exec (plan fixed c h (Success o) None t) t = Some t' /\
     node_at t (cert_path c) = None /\ node_at t' (cert_path c) <> None.
@@ -229,3 +282,21 @@ Example build_executes :
     node_at t' ["."; "data"; "ns"; "function"; "g.mcfunction"] = Some (NFile (Raw "say g")) /\
     node_at t' ["."; "data"; "minecraft"; "keep"; "m.txt"] = Some (NFile (Raw "kept by hand")).
 Proof. eexists. vm_compute. repeat split. Qed.
+
+(* the same tree and project under [hardened]: the error is reported, nothing is touched *)
+Example tag_error_noop_hardened :
+  run hardened w_cfg w_hdr0 (Success w_out) None w_tree_badtag = ([], RTagErr).
+Proof. vm_compute. reflexivity. Qed.
+
+(* non-vacuity of [hardened]: the complete build executes; jmc.txt goes through jmc.txt.tmp, which is gone afterwards *)
+Example build_executes_hardened :
+  exists t', exec (plan hardened w_cfg w_hdr_mc (Success w_out) None w_tree_mc) w_tree_mc = Some t' /\
+    snd (run hardened w_cfg w_hdr_mc (Success w_out) None w_tree_mc) = RDone /\
+    In (Replace (cert_path w_cfg) (Raw "LOAD=__load__")) (plan hardened w_cfg w_hdr_mc (Success w_out) None w_tree_mc) /\
+    node_at t' (cert_path w_cfg) = Some (NFile (Raw "LOAD=__load__")) /\ node_at t' (cert_tmp w_cfg) = None /\
+    node_at t' ["."; "data"; "ns"; "function"; "g.mcfunction"] = Some (NFile (Raw "say g")) /\
+    node_at t' ["."; "data"; "minecraft"; "keep"; "m.txt"] = Some (NFile (Raw "kept by hand")).
+Proof.
+  eexists. split; [vm_compute; reflexivity|]. split; [vm_compute; reflexivity|].
+  split; [vm_compute; auto 30|]. vm_compute. repeat split.
+Qed.
